@@ -36,6 +36,7 @@ type c11Env struct {
 	ids    map[string]int64
 	seller, buyer, committer, recipient, grantee sdk.AccAddress
 	askID, bidID                                 uint64
+	ask2ID, bid2ID                               uint64 // the same in market 2
 }
 
 var c11Perms = []exchange.Permission{
@@ -168,6 +169,15 @@ func (e *c11Env) setup() {
 		Assets: sdk.NewInt64Coin("apple", 10), Price: sdk.NewInt64Coin("peach", 100)}, nil)
 	e.must(err, "create bid")
 	e.must(k.AddCommitment(ctx, 1, e.committer, e.coins("50cherry"), ""), "commit")
+	e.ask2ID, err = k.CreateAskOrder(ctx, exchange.AskOrder{MarketId: 2, Seller: e.seller.String(),
+		Assets: sdk.NewInt64Coin("apple", 10), Price: sdk.NewInt64Coin("peach", 100)}, nil)
+	e.must(err, "create ask 2")
+	e.bid2ID, err = k.CreateBidOrder(ctx, exchange.BidOrder{MarketId: 2, Buyer: e.buyer.String(),
+		Assets: sdk.NewInt64Coin("apple", 10), Price: sdk.NewInt64Coin("peach", 100)}, nil)
+	e.must(err, "create bid 2")
+	e.must(k.AddCommitment(ctx, 2, e.committer, e.coins("50cherry"), ""), "commit 2")
+	ensureAccount(e.app, ctx, addrN(113))
+	fund(e.t, e.app, ctx, addrN(113), e.coins("100000nhash"))
 }
 
 // the guarded endpoints: each request is valid for market 1 as set up, so that the outcome is
@@ -306,6 +316,99 @@ func (e *c11Env) cancelCase(ctx sdk.Context, st, signer string, obs bool, kind s
 		e.w.Count("cancel_passed")
 	}
 	e.w.Nontrivial(fmt.Sprintf("c/%s/%d", kind, mask))
+}
+
+// ---------------------------------------------------------------- 1b. cross-market targets
+
+// itemState renders the orders and the commitment of one market as seen by ctx.
+func (e *c11Env) itemState(ctx sdk.Context, m uint32) string {
+	ask, bid := e.askID, e.bidID
+	if m == 2 {
+		ask, bid = e.ask2ID, e.bid2ID
+	}
+	var sb strings.Builder
+	for _, id := range []uint64{ask, bid} {
+		o, err := e.app.ExchangeKeeper.GetOrder(ctx, id)
+		if err != nil || o == nil {
+			fmt.Fprintf(&sb, "order %d: none;", id)
+		} else {
+			fmt.Fprintf(&sb, "order %d: %s;", id, o.String())
+		}
+	}
+	fmt.Fprintf(&sb, "commitment: %s", e.app.ExchangeKeeper.GetCommitmentAmount(ctx, m, e.committer))
+	return sb.String()
+}
+
+// cross: the request names market reqM (where the caller holds a subset of the permissions) but
+// its target item - the order to set an id on / settle / cancel, the commitment - belongs to itemM.
+func (e *c11Env) cross() {
+	caller := addrN(113).String()
+	orders := map[uint32][2]uint64{1: {e.askID, e.bidID}, 2: {e.ask2ID, e.bid2ID}}
+	type variant struct {
+		reqM, itemM uint32
+		caller      string
+		masks       int
+	}
+	variants := []variant{{2, 1, caller, 128}, {1, 2, caller, 128}, {1, 1, caller, 128},
+		{2, 1, e.auth, 1}, {1, 2, e.auth, 1},
+		{1, 2, addrN(111).String(), 1}} // holds everything on market 2, names market 1 (where he holds nothing) for a market-2 item
+	for _, v := range variants {
+		for mask := 0; mask < v.masks; mask++ {
+			ctx1, _ := e.base.CacheContext()
+			if mask != 0 {
+				e.must(e.app.ExchangeKeeper.UpdatePermissions(ctx1, &exchange.MsgMarketManagePermissionsRequest{Admin: e.auth, MarketId: v.reqM,
+					ToGrant: []exchange.AccessGrant{{Address: v.caller, Permissions: subsetPerms(mask)}}}), "grant subset")
+			}
+			st := coqList(e.grants(ctx1))
+			ids := orders[v.itemM]
+			type req struct {
+				name, what string
+				msg        sdk.Msg
+			}
+			reqs := []req{
+				{"MarketSetOrderExternalID", "ask order", &exchange.MsgMarketSetOrderExternalIDRequest{Admin: v.caller, MarketId: v.reqM, OrderId: ids[0], ExternalId: "c11-cross-id"}},
+				{"MarketSetOrderExternalID", "bid order", &exchange.MsgMarketSetOrderExternalIDRequest{Admin: v.caller, MarketId: v.reqM, OrderId: ids[1], ExternalId: "c11-cross-id"}},
+				{"MarketSettle", "ask+bid orders", &exchange.MsgMarketSettleRequest{Admin: v.caller, MarketId: v.reqM, AskOrderIds: []uint64{ids[0]}, BidOrderIds: []uint64{ids[1]}}},
+			}
+			if v.reqM == v.itemM {
+				reqs = append(reqs,
+					req{"MarketReleaseCommitments", "commitment", &exchange.MsgMarketReleaseCommitmentsRequest{Admin: v.caller, MarketId: v.reqM,
+						ToRelease: []exchange.AccountAmount{{Account: e.committer.String(), Amount: e.coins("5cherry")}}}},
+					req{"MarketCommitmentSettle", "commitment", &exchange.MsgMarketCommitmentSettleRequest{Admin: v.caller, MarketId: v.reqM,
+						Inputs:  []exchange.AccountAmount{{Account: e.committer.String(), Amount: e.coins("20cherry")}},
+						Outputs: []exchange.AccountAmount{{Account: e.recipient.String(), Amount: e.coins("20cherry")}}}})
+			}
+			for _, rq := range reqs {
+				ctx, _ := ctx1.CacheContext()
+				before := e.itemState(ctx, v.itemM)
+				err := e.send(ctx, rq.msg)
+				changed := err == nil && e.itemState(ctx, v.itemM) != before
+				e.w.Add(fmt.Sprintf("CCross %s 0%%N %s %s %s %s %s", coqStr(rq.name), st, nTerm(int64(v.reqM)), nTerm(int64(v.itemM)), nTerm(e.id(v.caller)), coqBool(changed)),
+					map[string]any{"kind": "cross_market", "endpoint": rq.name, "target": rq.what, "request_market": v.reqM, "item_market": v.itemM,
+						"caller_is_authority": v.caller == e.auth, "granted_on_request_market": permNames(mask), "passed": err == nil, "item_changed": changed})
+				e.w.Count("cross_cases")
+				if changed {
+					e.w.Count("cross_item_changed")
+				}
+				e.w.Nontrivial(fmt.Sprintf("x/%s/%s/%d/%d/%s/%d", rq.name, rq.what, v.reqM, v.itemM, v.caller, mask))
+			}
+			// CancelOrder has no market field: the caller's permissions are on reqM, the order is in itemM
+			for i, owner := range []sdk.AccAddress{e.seller, e.buyer} {
+				ctx, _ := ctx1.CacheContext()
+				err := e.send(ctx, &exchange.MsgCancelOrderRequest{Signer: v.caller, OrderId: ids[i]})
+				o, _ := e.app.ExchangeKeeper.GetOrder(ctx, ids[i])
+				e.w.Add(fmt.Sprintf("CCancel 0%%N %s {| o_id := %s; o_market := %s; o_owner := %s |} %s %s %s",
+					st, nTerm(int64(ids[i])), nTerm(int64(v.itemM)), nTerm(e.id(owner.String())), nTerm(e.id(v.caller)), coqBool(err == nil), coqBool(o != nil)),
+					map[string]any{"kind": "cancel_order_cross_market", "order": []string{"ask", "bid"}[i], "order_market": v.itemM, "permissions_on_market": v.reqM,
+						"granted": permNames(mask), "passed": err == nil, "order_still_there": o != nil})
+				e.w.Count("cancel_cases")
+				if err == nil {
+					e.w.Count("cancel_passed")
+				}
+				e.w.Nontrivial(fmt.Sprintf("cx/%d/%d/%d/%s/%d", i, v.reqM, v.itemM, v.caller, mask))
+			}
+		}
+	}
 }
 
 // ---------------------------------------------------------------- 2. payments
@@ -831,6 +934,45 @@ func (e *c11Env) govSweep() {
 				e.w.Count("gov_stranger_accepted")
 			}
 		}
+		// callers that hold rights over the objects the request names, but are not the authority:
+		// every single exchange permission (and all seven) on markets 1 and 2; every marker access on
+		// the marker; the owner of the bound name and of the trigger
+		if _, isException := alts[url]; !isException && module != "" && fills[url] != nil {
+			type privileged struct {
+				what  string
+				addr  string
+				perms []exchange.Permission
+			}
+			var callers []privileged
+			if module == "exchange" {
+				for _, p := range c11Perms {
+					callers = append(callers, privileged{"market permission " + p.SimpleString(), addrN(144).String(), []exchange.Permission{p}})
+				}
+				callers = append(callers, privileged{"all market permissions", addrN(144).String(), c11Perms})
+			}
+			callers = append(callers, privileged{"all access on the marker", addrN(141).String(), nil},
+				privileged{"owner of the name and the trigger", addrN(142).String(), nil})
+			for _, pc := range callers {
+				ctx1, _ := gctx.CacheContext()
+				for _, m := range []uint32{1, 2} {
+					if len(pc.perms) > 0 {
+						e.must(e.app.ExchangeKeeper.UpdatePermissions(ctx1, &exchange.MsgMarketManagePermissionsRequest{Admin: e.auth, MarketId: m,
+							ToGrant: []exchange.AccessGrant{{Address: pc.addr, Permissions: pc.perms}}}), "grant for gov sweep")
+					}
+				}
+				h1 := e.dumpHash(ctx1)
+				ctx, _ := ctx1.CacheContext()
+				obs := e.send(ctx, fills[url](pc.addr)) == nil
+				wrote := !obs && e.dumpHash(ctx) != h1
+				e.w.Add(fmt.Sprintf("CGov %s %s false %s %s", coqStr(module), coqStr(request), coqBool(obs), coqBool(wrote)),
+					map[string]any{"kind": "gov_sweep_privileged_non_authority", "type_url": url, "module": module, "signer_holds": pc.what, "passed": obs, "rejected_call_wrote": wrote})
+				e.w.Count("gov_privileged_non_authority_cases")
+				if obs {
+					e.w.Count("gov_privileged_non_authority_accepted")
+				}
+				e.w.Nontrivial("gp/" + url + "/" + pc.what)
+			}
+		}
 		if holder, ok := alts[url]; ok {
 			ctx, _ := gctx.CacheContext()
 			obs := e.send(ctx, fills[url](holder)) == nil
@@ -857,6 +999,7 @@ func TestC11(t *testing.T) {
 	e.setup()
 	e.signerCases()
 	e.matrix()
+	e.cross()
 	e.payments()
 	e.manageHistories()
 	e.govSweep()
